@@ -268,8 +268,16 @@ def opt_inner(ty):
     return m.group(1) if m else None
 
 
+_DEFAULTS = {}
+
+
 def check_casts(run, F, skip_time=False):
     inst = cast_instances(F)
+    _DEFAULTS.clear()
+    for f_ in F.fns:
+        if f_.kind == 'AssocFn' and f_.name == 'default' and f_.impl_trait and \
+                strip_generics(f_.impl_trait).endswith('Default') and f_.impl_self:
+            _DEFAULTS[head(f_.impl_self).split('::')[-1]] = one_leaf(tbl(f_))
     n = 0
     for fn, S, U in inst:
         if 'polars_cast' in fn.file:
@@ -362,6 +370,13 @@ def null_preserving(fn, S, U, t, leaf, body):
                 d = m.group(3)
                 ok = d in ('NULL', '|| NULL', 'str:None.to_string()', 'IsNone::none') or d.endswith('nat()')
                 return ok, 'None -> `%s`' % d
+            m = re.fullmatch(r'self(\.map\(.+\))?\.unwrap_or_default\(\)', leaf)
+            if m:
+                # the target's Default impl decides: NaT-valued defaults keep the null, a derived
+                # default (zero) does not
+                d = _DEFAULTS.get(head(U).split('::')[-1])
+                ok = d is not None and (d == 'NULL' or d.endswith('nat()'))
+                return ok, 'None -> Default::default() of the target = `%s`' % d
             if leaf.startswith('fmt::format(') or 'format' in leaf:
                 return True, 'Debug formatting of the Option ("None")'
         rows = {l for cs, l, ef in t if any(c.startswith('!VALID(self)') for c in cs)}
